@@ -22,7 +22,8 @@ RULE = ("Kernel level: Hypothesis draws series (9 classes, n 4..400) x gap patte
         "distinct by content hash. "
         " Added after the fourth seeded round: Float series carry valid cells a hair away from the nodata value (one ulp .. 0.5). "
         " Added after the fifth seeded round: Accessor cases carry an unrelated nodata attribute; generic 'history' sub-check for whits. "
-        " Added after the sixth seeded round: missing cells of float series / cubes stored as NaN or +-inf next to a finite nodata value (the kernel must hand its input buffer back unchanged).")
+        " Added after the sixth seeded round: missing cells of float series / cubes stored as NaN or +-inf next to a finite nodata value (the kernel must hand its input buffer back unchanged). "
+        " Added after the seventh seeded round: sub-check 'sg_reuse': one DataArray and one sgrid object across several whits(sg=) calls, the sgrid overwritten in place in between (oracle: brand-new objects).")
 ASSUME = ["LAPACK banded Cholesky as reference solver", "tie rule / fragility rule of DESIGN 2.5 / 2.7"]
 
 
@@ -118,7 +119,30 @@ def sub_accessor(case, rec=None):
     return why
 
 
-SUBS = {"kernel": sub_kernel, "accessor": sub_accessor}
+def sub_sg_reuse(case):
+    """ONE DataArray and ONE sgrid object across several whits(sg=...) calls; the sgrid's values are overwritten in place between the
+    calls (a tuning loop): every call must use the sgrid as it is at that moment - oracle: brand-new objects with the same content."""
+    ny, nx = case["shape"]
+    nt = len(case["pixels"][0])
+    cube = np.array(case["pixels"], dtype="float64").reshape(ny, nx, nt).astype(case["dtype"])
+    coords = {"time": pd.date_range("2010-01-01", periods=nt, freq="10D"), "y": np.arange(ny), "x": np.arange(nx) * 2}
+    da = xr.DataArray(cube, dims=("y", "x", "time"), coords=coords).transpose(*case["dims"])
+    sg = xr.DataArray(np.zeros((ny, nx)), dims=("y", "x"), coords={"y": coords["y"], "x": coords["x"]})
+    p = case.get("p")
+    kw = {} if p is None else {"p": p}
+    for step, grid in enumerate(case["grids"]):
+        vals = np.array([float(v) for v in grid], dtype="float64").reshape(ny, nx)
+        sg.values[...] = vals  # in place: the same object as in the previous call
+        got = call("whits(sg=) call %d" % (step + 1), lambda: da.hdc.whit.whits(case["nodata"], sg=sg, **kw))
+        da2 = xr.DataArray(cube.copy(), dims=("y", "x", "time"), coords=coords).transpose(*case["dims"])
+        sg2 = xr.DataArray(vals.copy(), dims=("y", "x"), coords={"y": coords["y"], "x": coords["x"]})
+        want = call("whits(sg=) on brand-new objects", lambda: da2.hdc.whit.whits(case["nodata"], sg=sg2, **kw))
+        req(got.dims == want.dims and np.array_equal(got.values, want.values),
+            "whits(sg=) call %d on the same DataArray with the same sgrid object overwritten in place (now %s) returns %s; brand-new objects with the same content give %s" % (
+                step + 1, fmt(vals.ravel(), 6), fmt(got.values.ravel(), 12), fmt(want.values.ravel(), 12)), "whits uses a stale sgrid")
+
+
+SUBS = {"kernel": sub_kernel, "accessor": sub_accessor, "sg_reuse": sub_sg_reuse}
 
 
 @st.composite
@@ -210,6 +234,20 @@ def run(ctx):
                       "p" if "p" in case else "nop"] + (["near_nodata_valid_cell"] if case.get("near") else []) + (["missing_as_nan"] if case.get("nan_cells") else []) + (["attr_nodata"] if case.get("attr_nodata") is not None else []) + (["sg:-inf"] if case["mode"] == "sg" and "-Infinity" in [str(v) for v in case["sg"]] else []))
 
     ctx.given("accessor", accessor_case(), ctx.n(250, 3000), fn=f_acc)
+
+    @st.composite
+    def reuse_case(draw):
+        c = draw(accessor_case())
+        n = c["shape"][0] * c["shape"][1]
+        arr = [[v if ok else c["nodata"] for v, ok in zip(px, vm)] for px, vm in zip(c["pixels"], c["valid"])]
+        grids = draw(st.lists(st.lists(st.one_of(gens.loglam(-3.0, 5.0), st.just("-Infinity")), min_size=n, max_size=n), min_size=2, max_size=4))
+        return {"shape": c["shape"], "pixels": arr, "dtype": c["dtype"], "dims": c["dims"], "nodata": c["nodata"], "grids": grids, **({"p": c["p"]} if "p" in c else {})}
+
+    def f_reuse(case):
+        rec.case("sg_reuse", case, nontrivial=any(g != case["grids"][0] for g in case["grids"][1:]), cls=["calls=%d" % len(case["grids"]), "dtype:" + case["dtype"]])
+        sub_sg_reuse(case)
+
+    ctx.given("sg_reuse", reuse_case(), ctx.n(80, 1000), fn=f_reuse)
 
 
 from harness import history as _history  # noqa: E402
